@@ -574,6 +574,8 @@ class NeuralStateBase(abc.ABC):
                 data.clone().detach().to(device=self.device, dtype=torch.double)
             )
         else:
+            if isinstance(data, np.ndarray):
+                data = data.copy()  # torch cannot read views with negative strides
             train_samples = torch.tensor(data, device=self.device, dtype=torch.double)
 
         all_params = [getattr(self, net).parameters() for net in self.networks]
